@@ -54,6 +54,46 @@ theorem fault_after_remove_not_returned (H : Hasher) (R0 : Int) (ops : List Op) 
   rw [find_del, e] at hf
   simp at hf
 
+/-- a history in which any operation may end in a fault -/
+inductive Ev where
+  | op (o : Op)
+  | fault (o : Op) (nth : Nat)
+
+def stepEv (H : Hasher) (s : CH) : Ev → CH
+  | .op o => step H s o
+  | .fault o nth => stepFault H s o nth
+
+def runEv (H : Hasher) (R0 : Int) (evs : List Ev) : CH := evs.foldl (stepEv H) (CH.new R0)
+
+/-- **every history with faults is a fault-free history**: whatever operations end in a panicking / exiting
+`String()`, at whichever call site, the ring is in a state that Add / AddWithReplicas / AddWithWeight / Remove alone can
+reach — all theorems about `run` (member-only, history independence, minimal disruption, …) hold after it. -/
+theorem faulty_history_is_reachable (H : Hasher) (R0 : Int) (evs : List Ev) :
+    ∃ ops, runEv H R0 evs = run H R0 ops := by
+  unfold runEv
+  suffices ∀ (evs : List Ev) (s : CH), (∃ ops, s = run H R0 ops) → ∃ ops, evs.foldl (stepEv H) s = run H R0 ops from
+    this evs _ ⟨[], rfl⟩
+  intro evs
+  induction evs with
+  | nil => intro s h; simpa using h
+  | cons e rest ih =>
+    intro s ⟨ops, hs⟩
+    simp only [List.foldl_cons]
+    apply ih
+    subst hs
+    cases e with
+    | op o => exact ⟨ops ++ [o], (run_snoc H R0 ops o).symm⟩
+    | fault o nth =>
+      rcases fault_leaves_reachable_state H R0 ops o nth with h | h
+      · exact ⟨ops, h⟩
+      · exact ⟨_, h⟩
+
+/-- … in particular `Get` never panics after such a history -/
+theorem faulty_history_get_never_panics (H : Hasher) (R0 : Int) (evs : List Ev) (k : Node) :
+    get H (runEv H R0 evs) k ≠ .panic := by
+  obtain ⟨ops, h⟩ := faulty_history_is_reachable H R0 evs
+  rw [h]; exact get_never_panics_reachable H R0 ops k
+
 set_option maxRecDepth 100000 in
 /-- non-vacuity: a re-weighting of `n` that fails after `Remove` leaves the other node serving the key -/
 example : get Pinned.W (stepFault Pinned.W (run Pinned.W 0 [.addR Pinned.n 3, .addR Pinned.x 4]) (.addW Pinned.n 50) 2)
